@@ -10,6 +10,7 @@ pub mod c02;
 pub mod c03;
 pub mod c04;
 pub mod c05;
+pub mod c06;
 pub mod cmdtable;
 pub mod c15;
 pub mod c16;
@@ -27,6 +28,7 @@ pub fn parent_main(prop: &str, tier: &str) -> i32 {
         "C20" => c20::parent(tier),
         "C15" => c15::parent(tier),
         "C05" => c05::parent(tier),
+        "C06" => c06::parent(tier),
         "C16" => c16::parent(tier),
         _ => {
             eprintln!("unknown property {}", prop);
@@ -57,6 +59,10 @@ pub fn worker_main(prop: &str, tier: &str, _slot: usize) {
         "C20" => pool::worker_loop(|t, io| c20::handle(tier, t, io)),
         "C05" => {
             let mut h = c05::handle_factory();
+            pool::worker_loop(|t, io| h(tier, t, io))
+        }
+        "C06" => {
+            let mut h = c06::handle_factory();
             pool::worker_loop(|t, io| h(tier, t, io))
         }
         "C15" => {
